@@ -705,6 +705,32 @@ def lin_eval(body, op, atoms, depth=12):
     return None
 
 
+def cgroup_path_rule(ctx, prog):
+    """`/proc/self/cgroup` lines are `hierarchy:controllers:path` and the PATH may itself contain colons (containerd with the
+    systemd cgroup driver: `...slice:cri-containerd:<id>`): the path is everything after the second colon. A parser that cuts the
+    line at EVERY colon truncates such paths - the quota files are then looked up in a directory that does not exist and the
+    quota silently reads as 'unlimited'."""
+    bs = prog.find("parse_cgroup_name")
+    bs = [b for b in bs if "::tests" not in b.key and not b.is_closure]
+    if not bs:
+        ctx.missing("R5.quota", "parse_cgroup_name")
+        return
+    b = bs[0]
+    ctx.fn(b)
+    bad = []
+    for bd in [b] + prog.closures_of(b):
+        for bb, t in bd.calls():
+            m = t["callee"].get("method")
+            if m in ("split", "rsplit", "split_terminator", "rsplit_terminator", "split_inclusive") and "str" in callee_key(t["callee"]) and len(t["args"]) >= 2:
+                c = resolve_const(bd, t["args"][1])
+                txt = (c or {}).get("text", "") if c else ""
+                val = (c or {}).get("val")
+                if val == 58 or "':'" in txt or '":"' in txt:
+                    bad.append(f"{m}(':') at {bd.loc(t['span'])}")
+    ctx.ob("R5.quota", "cgroup-path-keeps-its-colons", not bad, b.loc(),
+           f"unbounded splits of the cgroup line at ':': {bad or 'none'} (splitn(3, ':') / split_once / a fixed prefix are the forms that keep the path whole)")
+
+
 def codec_rules(ctx, prog):
     emit = prog.one("emit::emit")
     parse = prog.one("parse::parse")
@@ -1118,6 +1144,7 @@ def run(ctx):
     ctx.rule("R9.mask", "bit position <-> id inverse over one constant, insert never narrows, equality pads", floor=3)
     prog = ctx.prog("many_cpus_impl", "cpulist")
     platform_rules(ctx, prog)
+    cgroup_path_rule(ctx, prog)
     codec_rules(ctx, prog)
     mask_rules(ctx, prog)
     enumeration_rules(ctx, prog)
